@@ -41,6 +41,58 @@ def main():
     out = '/tmp/vx_ts_C19_%d.json' % os.getpid()
     r = subprocess.run(['/verif/bin/vx', 'extract', 'C19', '-setup', 'S_progress', '-param', 'writes=%d' % writes, '-param', 'wbytes=%d' % wbytes, '-o', out], capture_output=True, text=True)
     ts = json.load(open(out)); os.remove(out)
+    unsupported = [n for n in (ts.get('notes') or []) if 'UNSUPPORTED' in n]
+    if unsupported or not ts.get('chans'):
+        # the (changed) ProgressWriter left the fragment Engine 2 can extract: nothing is settled by the solver;
+        # the native consumer scenarios decide, and only a scenario failing on the real runtime is a violation
+        return fallback('extraction: ' + '; '.join(unsupported or ['no channel found in the extracted writer']))
+    try:
+        return solve(ts, tier, writes, wbytes)
+    except SystemExit:
+        raise
+    except Exception as ex:
+        import traceback; traceback.print_exc()
+        return fallback('encoder raised %s: %s' % (type(ex).__name__, ex))
+
+def native_scenarios():
+    """runs harness/C19/native_test.go.txt against /repo's working tree; returns (log lines, failed)"""
+    import tempfile, shutil
+    tmp = tempfile.mkdtemp(prefix='vxnat')
+    try:
+        real = os.path.join(tmp, 'zz_vx_native_test.go')
+        open(real, 'w').write(open('/verif/harness/C19/native_test.go.txt').read())
+        ov = os.path.join(tmp, 'overlay.json')
+        json.dump({'Replace': {'/repo/util/ioutil/zz_vx_native_test.go': real}}, open(ov, 'w'))
+        env = dict(os.environ, GOFLAGS='-mod=mod', GOPROXY='off', GOSUMDB='off', GOTOOLCHAIN='local')
+        r = subprocess.run(['timeout', '300', 'go', 'test', '-vet=off', '-count=1', '-run', '^TestVxC19', '-overlay', ov, './util/ioutil'],
+                           cwd='/repo', env=env, capture_output=True, text=True)
+        lines = (r.stdout + r.stderr).splitlines()
+        keep = [l.strip() for l in lines if 'VX-NATIVE' in l or 'panic:' in l or l.startswith('--- FAIL')]
+        return keep, (r.returncode != 0 and any('VX-NATIVE' in l or 'panic:' in l for l in lines))
+    finally:
+        shutil.rmtree(tmp, ignore_errors=True)
+
+def fallback(reason):
+    print('  INCONCLUSIVE concurrent part not settled by the solver (%s); running native consumer scenarios TestVxC19Consumers' % reason[:300])
+    log, failed = native_scenarios()
+    evp = '/verif/evidence/C19.json'
+    ev = json.load(open(evp))
+    ev['coverage'].setdefault('inconclusive', []).append('concurrent part: ' + reason[:300] + '; native scenarios ' + ('FAILED' if failed else 'passed'))
+    code = 0
+    if failed:
+        path = '/verif/replays/C19/native-scenarios.log'
+        os.makedirs('/verif/replays/C19', exist_ok=True)
+        open(path, 'w').write('go test -run ^TestVxC19 ./util/ioutil with harness/C19/native_test.go.txt as zz_vx_native_test.go\n' + '\n'.join(log) + '\n')
+        print('  violation confirmed natively: ' + (log[0] if log else 'TestVxC19Consumers failed'))
+        print('VIOLATION property=C19 replay=' + path)
+        ev['violations'] = ev.get('violations', 0) + 1
+        code = 1
+    else:
+        print('  NOTE native scenarios pass; claim for the concurrent part reduced to them on this tree')
+    json.dump(ev, open(evp, 'w'), indent=1, default=str)
+    sys.exit(code)
+
+def solve(ts, tier, writes, wbytes):
     ch = ts['chans'][0]['id']
     ts['procs'].append({'name': 'consumer', 'fn': 'environment (engine2/check_progress.py)', 'init': 0, 'nlocs': 2, 'exit': 1, 'crash': 0, 'vars': {'v': 64}, 'runs': 0, 'merged': 0,
                         'trans': [{'from': 0, 'to': 0, 'ev': {'kind': 'select', 'blocking': True, 'commaok': True, 'outcome': 0, 'cases': [{'dir': 'recv', 'chan': ch, 'res': 'v'}]}},
